@@ -41,7 +41,7 @@ WEIGHTS = [5, 7, 7, 3, 10, 10, 2, 2, 4, 3, 2, 4, 2, 2, 4, 4, 3, 4, 4]
 
 def budget(tier):
     if tier == "quick":
-        return dict(runs=32000, wall=75, chunk=200)
+        return dict(runs=24000, wall=75, chunk=200)
     return dict(runs=600000, wall=840, chunk=1000)
 
 
@@ -77,7 +77,10 @@ def generate(run_seed, tier):
                                             "verify_strings"):
             it["byz"] = r.choice(["scalar", "scalar", "huge_version",
                                   "huge_oid", "huge_int", "zero_point",
-                                  "offcurve_point"])
+                                  "offcurve_point", "no_params", "only_pub",
+                                  "empty_scalar", "short_scalar",
+                                  "inner_no_params", "deep_pkcs8", "deep_seq",
+                                  "empty_oid", "empty_bits", "empty_point"])
             it["byz_v"] = r.randrange(1 << 16)
             kinds = kinds[:r.choice([0, 0, 1])]
         it["faults"] = kinds
@@ -309,6 +312,68 @@ def _byzantine(it, e, mc, d, data):
 
     def wrap(body, label):
         return mder.pem(body, label) if pem else body
+    huge = (1 << (8 * (2000 + v % 3000))) + v
+    pem = e.endswith("_pem")
+    priv = e.startswith(("sk_", "ecdh_priv"))
+    pub = e.startswith(("vk_", "ecdh_pub"))
+    sig = e.startswith(("sigdecode", "verify"))
+
+    def wrap(body, label):
+        return mder.pem(body, label) if pem else body
+    db = d.to_bytes(L, "big")
+    structural = not e.endswith(("string", "bytes"))
+    if kind in ("no_params", "only_pub", "empty_scalar", "short_scalar",
+                "inner_no_params") and priv and structural:
+        # optional fields left out / fields present but empty: all of it
+        # well-formed DER
+        if kind == "empty_scalar":
+            db2 = b""
+        elif kind == "short_scalar":
+            db2 = db.lstrip(b"\x00")[: max(1, L - 1 - v % 3)] or b"\x01"
+        else:
+            db2 = db
+        parts = [mder.enc_int(1), mder.enc_octets(db2)]
+        if kind in ("empty_scalar", "short_scalar"):
+            parts.append(mder.enc_ctx(0, mder.enc_oid(mc.oid)))
+        if kind == "only_pub" or (kind in ("empty_scalar",) and v % 2):
+            parts.append(mder.enc_ctx(1, mder.enc_bits(pt, 0)))
+        inner = mder.enc_seq(*parts)
+        if it["fmt"] == "ssleay" and kind != "inner_no_params":
+            return wrap(inner, "EC PRIVATE KEY")
+        return wrap(mder.enc_seq(
+            mder.enc_int(v % 2),
+            mder.enc_seq(mder.enc_oid(mder.OID_EC_PUBLIC_KEY),
+                         mder.enc_oid(mc.oid)),
+            mder.enc_octets(inner)), "PRIVATE KEY")
+    if kind == "deep_pkcs8" and priv and structural:
+        depth = [3, 40, 400, 1500, 2500][v % 5]
+        body = mder.ec_private_key(mc.oid, db, pt)
+        alg = mder.enc_seq(mder.enc_oid(mder.OID_EC_PUBLIC_KEY),
+                           mder.enc_oid(mc.oid))
+        for _ in range(depth):
+            body = mder.enc_seq(mder.enc_int(1), alg, mder.enc_octets(body))
+        return wrap(body, "PRIVATE KEY")
+    if kind == "deep_seq" and structural and (priv or pub or "der" in e):
+        depth = [3, 40, 400, 1500, 2500][v % 5]
+        body = bytes(data) if not pem else b"\x02\x01\x01"
+        tag = [0x30, 0x04, 0xA0, 0x03][(v >> 3) % 4]
+        for _ in range(depth):
+            body = mder.tlv(tag, (b"\x00" if tag == 0x03 else b"") + body)
+        return wrap(body, "PRIVATE KEY" if priv else "PUBLIC KEY") \
+            if (priv or pub) else body
+    if kind in ("empty_oid", "empty_bits", "empty_point") and pub \
+            and structural:
+        alg = mder.enc_seq(
+            mder.enc_oid(mder.OID_EC_PUBLIC_KEY),
+            mder.tlv(0x06, b"") if kind == "empty_oid"
+            else mder.enc_oid(mc.oid))
+        if kind == "empty_bits":
+            bits = mder.tlv(0x03, b"")
+        elif kind == "empty_point":
+            bits = mder.enc_bits(b"", 0)
+        else:
+            bits = mder.enc_bits(pt, 0)
+        return wrap(mder.enc_seq(alg, bits), "PUBLIC KEY")
     if kind == "scalar" and priv:
         dv = [0, n, n + 1, (1 << (8 * L)) - 1, n - 1, 1][v % 6]
         db = dv.to_bytes(L, "big")
